@@ -467,7 +467,9 @@ void run_unit(Ctx &cx, uint64_t unit_index, const DumpSpec &d, int kind, bool th
         cx.prog->fault_kind = (uint64_t)cases[i].value;
         cx.prog->run = cases[i].reader >= 0 ? (uint64_t)cases[i].reader + 1 : 0;
         std::string detail;
+        watchdog_arm(cx.under_valgrind ? 120 : 10);
         std::string key = run_case(cx, p, cases[i], detail);
+        watchdog_disarm();
         if (!key.empty()) {
             ++nviol;
             if (cx.reported.insert(key).second) {
@@ -575,7 +577,9 @@ int main(int argc, char **argv)
             return 0;
         }
         std::string detail;
+        watchdog_arm(cx.under_valgrind ? 120 : 10);
         std::string key = run_case(cx, p, c, detail);
+        watchdog_disarm();
         if (key.empty())
             std::printf("REPLAY ok\n");
         else
